@@ -23,8 +23,10 @@ NO_UPPER_FLAGS = {"has_upper": "set when the host scan meets A-Z",
 
 
 class LowerMonitor(Monitor):
-    def __init__(self):
+    def __init__(self, targets=None, true_flags=None):
         self.sites = {}     # (fkey, loc, text) -> list of bool (justified on that path?)
+        self.targets = targets or {TARGET}
+        self.true_flags = true_flags or {}    # flags whose *truth* establishes lower-case-ness
 
     def summarise(self, callee, node, binding):
         return False
@@ -34,7 +36,7 @@ class LowerMonitor(Monitor):
         q = node.get("qname")
         if q in LOWERING:
             return [core | {LOWERING[q]}]
-        if q == TARGET:
+        if q in self.targets:
             k = (act.f["key"], node.get("loc", ""), X.show(node))
             self.sites.setdefault(k, []).append(sorted(core))
         return [core]
@@ -50,6 +52,10 @@ class LowerMonitor(Monitor):
             val = truth != neg
             if not val:
                 return core | {"%s is false" % c["name"]}
+        if isinstance(c, dict) and c.get("k") == "ref" and c.get("name") in self.true_flags:
+            val = truth != neg
+            if val:
+                return core | {"%s is true" % c["name"]}
         if isinstance(c, dict) and c.get("k") == "bin" and c.get("op") in ("==", "!="):
             l, r = X.strip(c["l"]), X.strip(c["r"])
             if isinstance(l, dict) and l.get("k") == "ref" and l.get("name") in NO_UPPER_FLAGS and X.const_val(r) == 0:
